@@ -112,16 +112,29 @@ def r2(tree, rep):
     clr = g.nodes(lambda s: isinstance(s, ast.Assign) and any(is_self_attr(t, "_paused") for t in s.targets) and const(s.value) is False)
     wl = [n for n in g.nodes(lambda s: isinstance(s, ast.While)) if isinstance(g.stmt[n].test, ast.UnaryOp) and is_self_attr(g.stmt[n].test.operand, "_paused")]
     acc = g.call_nodes(lambda c: dotted(c.func) == "self._get_next_unpaused_producer")
+    if not acc:
+        # the accessor written in place: the head of _all_producers is taken and the deque rotated by one
+        heads = g.nodes(lambda s: isinstance(s, ast.Assign) and isinstance(s.value, ast.Subscript) and is_self_attr(s.value.value, "_all_producers")
+                        and const(s.value.slice) == 0)
+        rots = g.call_nodes(lambda c: dotted(c.func) == "self._all_producers.rotate" and len(c.args) == 1
+                            and isinstance(c.args[0], ast.UnaryOp) and isinstance(c.args[0].op, ast.USub) and const(c.args[0].operand) == 1)
+        if len(heads) == 1 and len(rots) == 1 and not g.precedes(heads, rots):
+            acc = heads
     ok = len(clr) == 1 and len(wl) == 1 and len(acc) == 1 and not g.precedes(clr, wl)
     rep.check("C15.R2", "resumeProducing clears the flag, then loops while not paused again, taking producers only through the rotating accessor", ok,
               site(rf, OUT), key="C15.R2:resumeProducing:loop", what="resume does not re-check the paused flag between producers (a producer that fills the buffer is ignored)")
     direct = [n for n in ast.walk(rf) if isinstance(n, (ast.For,)) and any(is_self_attr(x, "_paused_producers") or is_self_attr(x, "_all_producers") for x in ast.walk(n.iter))]
     rep.check("C15.R2", "resumeProducing does not iterate the producer sets directly", not direct, site(rf, OUT), key="C15.R2:resumeProducing:no-direct-iteration")
-    ga = tree.func(OUT, "Outbound", "_get_next_unpaused_producer")
+    in_place = not tree.has_func(OUT, "Outbound", "_get_next_unpaused_producer") and len(acc) == 1
+    ga = rf if in_place else tree.func(OUT, "Outbound", "_get_next_unpaused_producer")
     rot = [c for c in ast.walk(ga) if isinstance(c, ast.Call) and dotted(c.func) == "self._all_producers.rotate"]
     g = build(ga)
     rn = g.call_nodes(lambda c: dotted(c.func) == "self._all_producers.rotate")
-    rets = [n for n in g.nodes(lambda s: isinstance(s, ast.Return)) if g.stmt[n].value is not None and const(g.stmt[n].value) is not None]
+    if in_place:
+        # the producer handed out = the one that is resumed
+        rets = g.call_nodes(lambda c: isinstance(c.func, ast.Attribute) and c.func.attr == "resumeProducing" and isinstance(c.func.value, ast.Name))
+    else:
+        rets = [n for n in g.nodes(lambda s: isinstance(s, ast.Return)) if g.stmt[n].value is not None and const(g.stmt[n].value) is not None]
     ok = len(rot) == 1 and isinstance(rot[0].args[0], ast.UnaryOp) and const(rot[0].args[0].operand) == 1 and bool(rets) and not g.precedes(rn, rets)
     rep.check("C15.R2", "the accessor rotates the line by one on every producer it hands out (each paused producer gets a turn)", ok, site(ga, OUT),
               key="C15.R2:rotate", what="the same producer is resumed first every time (others starve)")
